@@ -237,3 +237,625 @@ Proof.
              nv_ks_two_distinct nv_ks_len).
     rewrite nv_ks_grid. exact h6_neq.
 Qed.
+
+(* ====================================================================== *)
+(* C02                                                                     *)
+(* ====================================================================== *)
+
+(* replace the variable r of a hypothesis [m = Ok r] (m closed) by the value
+   the model computes *)
+Ltac subst_ok H :=
+  match type of H with
+  | ?m = Ok ?r =>
+      let v := eval vm_compute in m in
+      match v with
+      | Ok ?r0 =>
+          let E := fresh "E" in
+          assert (E : r = r0) by (apply (ok_inj m); [exact H | vm_compute; reflexivity]);
+          subst r
+      end
+  end.
+
+(* the coefficients of a spline as plain fractions *)
+Definition coefsQ (s : spline Qc) : list (list Q) := map (map this) (scoefs s).
+
+(* sa at 9/5 (inside interval 2), at the interior grid point 3/2 (the LEFT piece
+   decides: 3/4, the right piece would give 23/48) and at its first point 1/2 *)
+Example NV_C02_inside :
+  spl_eval sa (qc 9 5) = Ok (den sa 2 (qc 9 5)) /\ den sa 2 (qc 9 5) = qc 599 1200 /\
+  spl_eval sa (qc 3 2) = Ok (den sa 1 (qc 3 2)) /\ den sa 1 (qc 3 2) = qc 3 4 /\
+  den sa 2 (qc 3 2) = qc 23 48 /\
+  spl_eval sa (qc 1 2) = Ok (den sa 1 (qc 1 2)) /\ den sa 1 (qc 1 2) = qc 11 4 /\
+  spl_eval sa (qc 9 5) = Ok (qc 599 1200).
+Proof.
+  split; [|split; [qc|split; [|split; [qc|split; [qc|split; [|split; [qc|okqc]]]]]]].
+  - apply (C02_inside Qc QcOps Qc_laws sa (qc 9 5) 2 sa_inv); [split; nfact|].
+    left. split; vmr.
+  - apply (C02_inside Qc QcOps Qc_laws sa (qc 3 2) 1 sa_inv); [split; nfact|].
+    left. split; vmr.
+  - apply (C02_inside Qc QcOps Qc_laws sa (qc 1 2) 1 sa_inv); [split; nfact|].
+    right. split; [reflexivity | qc].
+Qed.
+
+Example NV_C02_outside :
+  spl_eval sa (qc 1 4) = Ok f0 /\ spl_eval sa (qc 3 1) = Ok f0 /\
+  spl_eval sz (qc 1 1) = Ok f0 /\ den sa 3 (qc 3 1) = f0.
+Proof.
+  split; [|split; [|split]].
+  - apply (C02_outside Qc QcOps Qc_laws sa (qc 1 4) sa_inv); [nfact | left; vmr].
+  - apply (C02_outside Qc QcOps Qc_laws sa (qc 3 1) sa_inv); [nfact | right; vmr].
+  - apply (C02_no_interval Qc QcOps sz (qc 1 1) sz_inv). nfact.
+  - apply (C02_den_outside Qc QcOps sa 3 (qc 3 1)). intros [_ H]. revert H. nfact.
+Qed.
+
+Example NV_C02_front_back :
+  spl_front sa = Ok (qc 1 2) /\ spl_back sa = Ok (qc 2 1) /\
+  spl_front sz = Throw INVALID_ACCESS /\ (exists v, spl_eval sw (qc 17 5) = Ok v).
+Proof.
+  split; [|split; [|split]].
+  - rewrite (C02_front Qc QcOps sa sa_inv). vmr.
+  - rewrite (C02_back Qc QcOps sa sa_inv). vmr.
+  - rewrite (C02_front Qc QcOps sz sz_inv). vmr.
+  - exact (C02_total Qc QcOps Qc_laws sw (qc 17 5) sw_inv).
+Qed.
+
+Example NV_C02_lower_bound_contract :
+  lower_bound g6 (qc 9 5) = 3%nat /\
+  (forall i a, (i < 3)%nat -> nth_error g6 i = Some a -> fltb a (qc 9 5) = true) /\
+  (forall i a, (3 <= i)%nat -> nth_error g6 i = Some a -> fltb a (qc 9 5) = false).
+Proof.
+  destruct (C02_lower_bound_contract Qc QcOps Qc_laws g6 (qc 9 5) (proj2 (proj2 g6_inv)))
+    as (H1 & H2 & _).
+  split; [vmr|]. split; [exact H1 | exact H2].
+Qed.
+
+(* ====================================================================== *)
+(* C03                                                                     *)
+(* ====================================================================== *)
+
+(* partially overlapping windows: the sum lives on the hull 1..5, has order 2,
+   and is the pointwise sum on the common interval 2, sb alone on interval 3 *)
+Example NV_C03_add :
+  exists u r, calc_union (ssup sa) (ssup sb) = Ok u /\ spl_add sa sb = Ok r /\ SplInv r /\
+    u = win 1 6 /\ ssup r = win 1 6 /\ sord r = 2%nat /\
+    coefsQ r = [[1; -2; 3]; [5 # 2; 1 # 3; -1 # 3]; [-1; 5 # 2; 0]; [3 # 4; -2; 0]]%Q /\
+    den r 2 (qc 9 5) = (den sa 2 (qc 9 5) + den sb 2 (qc 9 5))%F /\
+    den sa 2 (qc 9 5) = qc 599 1200 /\ den sb 2 (qc 9 5) = qc 121 60 /\
+    den r 2 (qc 9 5) = qc 3019 1200 /\
+    den r 3 (qc 3 1) = (f0 + den sb 3 (qc 3 1))%F /\ den r 0 (qc 1 4) = (f0 + f0)%F.
+Proof.
+  destruct (C03_add Qc QcOps Qc_laws sa sb sa_inv sb_inv eq_refl)
+    as (u & r & Hu & Hr & Hi & Hs & Ho & Hd).
+  exists u, r. split; [exact Hu|]. split; [exact Hr|]. split; [exact Hi|].
+  pose proof (Hd 2%N (qc 9 5)) as H2. pose proof (Hd 3%N (qc 3 1)) as H3.
+  pose proof (Hd 0%N (qc 1 4)) as H0.
+  rewrite (C02_den_outside Qc QcOps sa 3 (qc 3 1)) in H3 by (intros [_ H]; revert H; nfact).
+  rewrite (C02_den_outside Qc QcOps sa 0 (qc 1 4)) in H0 by (intros [H _]; revert H; nfact).
+  rewrite (C02_den_outside Qc QcOps sb 0 (qc 1 4)) in H0 by (intros [H _]; revert H; nfact).
+  subst_ok Hu. subst_ok Hr.
+  split; [vmr|]. split; [vmr|]. split; [vmr|]. split; [vmr|].
+  split; [exact H2|]. split; [qc|]. split; [qc|]. split; [qc|]. split; [exact H3 | exact H0].
+Qed.
+
+(* windows separated by a gap: the hull is the whole grid and the intervals in
+   between carry zero arrays *)
+Example NV_C03_add_gap :
+  exists r, spl_add sc sd = Ok r /\ SplInv r /\ ssup r = win 0 6 /\ sord r = 2%nat /\
+    coefsQ r = [[1; 4; 0]; [0; 0; 0]; [0; 0; 0]; [0; 0; 0]; [-1; 2; 1 # 5]]%Q /\
+    (forall x, den r 2 x = (f0 + f0)%F).
+Proof.
+  destruct (C03_add Qc QcOps Qc_laws sc sd sc_inv sd_inv eq_refl)
+    as (u & r & Hu & Hr & Hi & Hs & Ho & Hd).
+  exists r. split; [exact Hr|]. split; [exact Hi|].
+  assert (H2 : forall x, den r 2 x = (f0 + f0)%F).
+  { intros x. rewrite (Hd 2%N x).
+    rewrite (C02_den_outside Qc QcOps sc 2 x) by (intros [_ H]; revert H; nfact).
+    rewrite (C02_den_outside Qc QcOps sd 2 x) by (intros [H _]; revert H; nfact).
+    reflexivity. }
+  subst_ok Hr. split; [vmr|]. split; [vmr|]. split; [vmr | exact H2].
+Qed.
+
+Example NV_C03_sub :
+  exists r, spl_sub sa sb = Ok r /\ SplInv r /\ ssup r = win 1 6 /\
+    coefsQ r = [[1; -2; 3]; [-3 # 2; -1 # 3; -1 # 3]; [1; -5 # 2; 0]; [-3 # 4; 2; 0]]%Q /\
+    den r 2 (qc 9 5) = (den sa 2 (qc 9 5) - den sb 2 (qc 9 5))%F /\
+    den r 2 (qc 9 5) = qc (-607) 400.
+Proof.
+  destruct (C03_sub Qc QcOps Qc_laws sa sb sa_inv sb_inv eq_refl)
+    as (u & r & Hu & Hr & Hi & Hs & Ho & Hd).
+  exists r. split; [exact Hr|]. split; [exact Hi|]. pose proof (Hd 2%N (qc 9 5)) as H2.
+  subst_ok Hr. split; [vmr|]. split; [vmr|]. split; [exact H2 | qc].
+Qed.
+
+(* the product lives on the common interval 2 and has order 2 + 1; windows
+   that merely touch or are separated give the interval-free spline *)
+Example NV_C03_mul :
+  (exists u r, calc_inter (ssup sa) (ssup sb) = Ok u /\ spl_mul sa sb = Ok r /\ SplInv r /\
+     u = win 2 4 /\ ssup r = win 2 4 /\ sord r = 3%nat /\
+     coefsQ r = [[1; 1 # 6; -2 # 3; -1 # 9]]%Q /\
+     den r 2 (qc 9 5) = (den sa 2 (qc 9 5) * den sb 2 (qc 9 5))%F /\
+     den r 2 (qc 9 5) = qc 72479 72000) /\
+  (exists r, spl_mul sa sc = Ok r /\ SplInv r /\ nintervals (ssup r) = 0%N /\ scoefs r = []) /\
+  (exists r, spl_mul sc sd = Ok r /\ SplInv r /\ nintervals (ssup r) = 0%N /\
+             forall k x, (den sc k x * den sd k x)%F = den r k x).
+Proof.
+  split; [|split].
+  - destruct (C03_mul Qc QcOps Qc_laws sa sb sa_inv sb_inv eq_refl)
+      as (u & r & Hu & Hr & Hi & Hs & Ho & Hd).
+    exists u, r. split; [exact Hu|]. split; [exact Hr|]. split; [exact Hi|].
+    pose proof (Hd 2%N (qc 9 5)) as H2. subst_ok Hu. subst_ok Hr.
+    split; [vmr|]. split; [vmr|]. split; [vmr|]. split; [vmr|]. split; [exact H2 | qc].
+  - destruct (C03_mul Qc QcOps Qc_laws sa sc sa_inv sc_inv eq_refl)
+      as (u & r & Hu & Hr & Hi & Hs & Ho & Hd).
+    exists r. split; [exact Hr|]. split; [exact Hi|]. subst_ok Hr. split; vmr.
+  - destruct (C03_mul Qc QcOps Qc_laws sc sd sc_inv sd_inv eq_refl)
+      as (u & r & Hu & Hr & Hi & Hs & Ho & Hd).
+    exists r. split; [exact Hr|]. split; [exact Hi|].
+    split; [subst_ok Hr; vmr | intros k x; symmetry; apply Hd].
+Qed.
+
+Example NV_C03_scale_div_neg :
+  den (spl_scale sa (qc 2 3)) 2 (qc 9 5) = (den sa 2 (qc 9 5) * qc 2 3)%F /\
+  den (spl_neg sa) 2 (qc 9 5) = (- den sa 2 (qc 9 5))%F /\
+  SplInv (spl_scale sa (qc 2 3)) /\
+  (exists r, spl_div sa (qc 2 3) = Ok r /\ SplInv r /\ ssup r = ssup sa /\
+     coefsQ r = [[3 # 2; -3; 9 # 2]; [3 # 4; 0; -1 # 2]]%Q /\
+     den r 2 (qc 9 5) = (den sa 2 (qc 9 5) / qc 2 3)%F /\ den r 2 (qc 9 5) = qc 599 800).
+Proof.
+  split; [apply (C03_scale Qc QcOps Qc_laws)|]. split; [apply (C03_neg Qc QcOps Qc_laws)|].
+  split; [apply (C03_scale_inv Qc QcOps sa (qc 2 3) sa_inv)|].
+  destruct (C03_div Qc QcOps Qc_laws sa (qc 2 3) sa_inv) as (r & Hr & Hi & Hs & Ho & Hd).
+  { intros H. apply (f_equal this) in H. vm_compute in H. discriminate H. }
+  exists r. split; [exact Hr|]. split; [exact Hi|]. split; [exact Hs|].
+  pose proof (Hd 2%N (qc 9 5)) as H2. subst_ok Hr. split; [vmr|]. split; [exact H2 | qc].
+Qed.
+
+Example NV_C03_assign_up :
+  exists r, spl_assign_up 3 sa = Ok r /\ SplInv r /\ sord r = 3%nat /\ ssup r = ssup sa /\
+    coefsQ r = [[1; -2; 3; 0]; [1 # 2; 0; -1 # 3; 0]]%Q /\
+    (forall k x, den r k x = den sa k x).
+Proof.
+  destruct (C03_assign_up Qc QcOps Qc_laws 3 sa sa_inv) as (r & Hr & Hi & Ho & Hs & Hd);
+    [vm_compute; lia|].
+  exists r. split; [exact Hr|]. split; [exact Hi|]. split; [exact Ho|]. split; [exact Hs|].
+  split; [subst_ok Hr; vmr | exact Hd].
+Qed.
+
+(* sa += sb is allowed (order 1 into order 2); sb += sa is not a C++ program *)
+Example NV_C03_iadd :
+  (exists r, spl_iadd sa sb = Ok r /\ SplInv r /\ sord r = 2%nat /\ spl_iadd sa sb = spl_add sa sb /\
+     forall k x, den r k x = (den sa k x + den sb k x)%F) /\
+  (exists r, spl_isub sa sb = Ok r /\ spl_isub sa sb = spl_sub sa sb /\
+     den r 2 (qc 9 5) = (den sa 2 (qc 9 5) - den sb 2 (qc 9 5))%F) /\
+  spl_iadd sb sa = UB IllTyped.
+Proof.
+  split; [|split; [|vmr]].
+  - destruct (C03_iadd Qc QcOps Qc_laws sa sb sa_inv sb_inv eq_refl) as (u & r & _ & Hr & Hi & _ & Ho & Hd);
+      [vm_compute; lia|].
+    exists r. split; [exact Hr|]. split; [exact Hi|]. split; [exact Ho|]. split; [|exact Hd].
+    apply (C03_iadd_is_add Qc QcOps). vm_compute; lia.
+  - destruct (C03_isub Qc QcOps Qc_laws sa sb sa_inv sb_inv eq_refl) as (u & r & _ & Hr & _ & _ & _ & Hd);
+      [vm_compute; lia|].
+    exists r. split; [exact Hr|]. split; [|apply Hd].
+    apply (C03_isub_is_sub Qc QcOps). vm_compute; lia.
+Qed.
+
+(* 2 sb - se + sc/3: three splines of order 1 on nested / disjoint windows *)
+Example NV_C03_lin_comb :
+  exists r, lin_comb [qc 2 1; qc (-1) 1; qc 1 3] [sb; se; sc] = Ok r /\ SplInv r /\
+    sord r = 1%nat /\ sgridp r = g6 /\ ssup r = win 0 6 /\
+    coefsQ r = [[1 # 3; 4 # 3]; [0; 0]; [4; 2 # 3]; [-9; 11 # 2]; [3 # 2; -4]]%Q /\
+    den r 3 (qc 3 1) = (qc 2 1 * den sb 3 (qc 3 1) + (qc (-1) 1 * den se 3 (qc 3 1)
+                          + (qc 1 3 * den sc 3 (qc 3 1) + f0)))%F /\
+    den r 3 (qc 3 1) = qc (-61) 8.
+Proof.
+  destruct (C03_lin_comb Qc QcOps Qc_laws [qc 2 1; qc (-1) 1; qc 1 3] sb [se; sc] eq_refl)
+    as (r & Hr & Hi & Ho & Hg & Hm & Hd).
+  { apply Forall_cons; [exact sb_inv|]. apply Forall_cons; [exact se_inv|].
+    apply Forall_cons; [exact sc_inv | apply Forall_nil]. }
+  { intros s [<- | [<- | [<- | []]]]; split; reflexivity. }
+  exists r. split; [exact Hr|]. split; [exact Hi|]. split; [exact Ho|]. split; [exact Hg|].
+  pose proof (Hd 3%N (qc 3 1)) as H3. cbn [map lincomb_val] in H3.
+  subst_ok Hr. split; [vmr|]. split; [vmr|]. split; [exact H3 | qc].
+Qed.
+
+(* sa += sb; sa *= 3; sa -= sc; sa /= 1/2 *)
+Example NV_C03_update_sequences :
+  exists r, apply_upds sa [UAdd sb; UMul (qc 3 1); USub sc; UDiv (qc 1 2)] = Ok r /\ SplInv r /\
+    sgridp r = g6 /\ sord r = 2%nat /\ ssup r = win 0 6 /\
+    coefsQ r = [[-2; -8; 0]; [6; -12; 18]; [15; 2; -2]; [-6; 15; 0]; [9 # 2; -12; 0]]%Q /\
+    (forall k x, den r k x = (((den sa k x + den sb k x) * qc 3 1 - den sc k x) / qc 1 2)%F) /\
+    den r 2 (qc 9 5) = qc 3019 200.
+Proof.
+  destruct (C03_update_sequences Qc QcOps Qc_laws [UAdd sb; UMul (qc 3 1); USub sc; UDiv (qc 1 2)]
+              sa sa_inv) as (r & Hr & Hi & Hg & Ho & Hd).
+  { apply Forall_cons; [split; [exact sb_inv | split; [reflexivity | vm_compute; lia]]|].
+    apply Forall_cons; [exact I|].
+    apply Forall_cons; [split; [exact sc_inv | split; [reflexivity | vm_compute; lia]]|].
+    apply Forall_cons; [|apply Forall_nil].
+    intros H. apply (f_equal this) in H. vm_compute in H. discriminate H. }
+  exists r. split; [exact Hr|]. split; [exact Hi|]. split; [exact Hg|]. split; [exact Ho|].
+  assert (Hd' : forall k x, den r k x = (((den sa k x + den sb k x) * qc 3 1 - den sc k x) / qc 1 2)%F)
+    by (intros k x; exact (Hd k x)).
+  subst_ok Hr. split; [vmr|]. split; [vmr|]. split; [exact Hd' | qc].
+Qed.
+
+(* ====================================================================== *)
+(* C04                                                                     *)
+(* ====================================================================== *)
+
+Lemma qc_neq (a b : Qc) : Qc_eqb a b = false -> a <> b.
+Proof. intros H E. apply Qc_eqb_eq in E. congruence. Qed.
+Ltac qcneq := apply qc_neq; vm_compute; reflexivity.
+
+(* x d/dx + (3 sb) / (2/3): position, derivative, a spline factor, an integer
+   scalar, a T scalar and a division *)
+Definition e4 : expr Qc :=
+  EAdd (EMul (EPos 1) (EDer 1)) (EDivS (ESMulL (ScI 3) (ESpl sb)) (ScF (qc 2 3))).
+
+Lemma e4_factors : factors_ok e4 g6.
+Proof. split; [split; exact I|]. split; [exact sb_inv | reflexivity]. Qed.
+Lemma e4_scalars : scalars_ok e4.
+Proof.
+  split; [split; exact I|]. split; [exact I|]. split; [cbn [sval]; qcneq|].
+  split; exact I.
+Qed.
+
+Example NV_C04_apply :
+  exists r, apply (elab e4) sa = Ok r /\ SplInv r /\ ssup r = ssup sa /\ sord r = 3%nat /\
+    coefsQ r = [[-2; 4; 6; 0]; [9 # 2; -5 # 12; -11 # 3; -1 # 2]]%Q /\
+    (* on interval 2 (x = u + 7/4): x p'(x) + (9/2) sb(x) p(x) *)
+    (forall u, peval (piece r 2) u = peval (dsem e4 g6 2 (piece sa 2)) u) /\
+    peval (dsem e4 g6 2 (piece sa 2)) (qc 1 20)
+    = (qc 9 5 * peval (pderiv (piece sa 2)) (qc 1 20)
+       + qc 9 2 * (peval (piece sb 2) (qc 1 20) * peval (piece sa 2) (qc 1 20)))%F /\
+    peval (piece r 2) (qc 1 20) = qc 71519 16000 /\
+    (* on interval 1 sb is not supported: only x p'(x) remains (x = u + 1) *)
+    peval (piece r 1) (qc 1 4) = (qc 5 4 * peval (pderiv (piece sa 1)) (qc 1 4))%F.
+Proof.
+  destruct (C04_apply Qc QcOps Qc_laws e4 sa sa_inv e4_factors e4_scalars)
+    as (r & Hr & Hi & Hs & Ho & Hd).
+  exists r. split; [exact Hr|]. split; [exact Hi|]. split; [exact Hs|]. split; [exact Ho|].
+  assert (H2 : forall u, peval (piece r 2) u = peval (dsem e4 g6 2 (piece sa 2)) u)
+    by (intros u; exact (Hd 2%N u)).
+  subst_ok Hr. split; [vmr|]. split; [exact H2|]. split; [qc|]. split; qc.
+Qed.
+
+Example NV_C04_derivative_transform :
+  transform (ODer 1) [qc 1 1; qc (-2) 1; qc 3 1] g6 2 = Ok (pderivn 1 [qc 1 1; qc (-2) 1; qc 3 1]) /\
+  map this (pderivn 1 [qc 1 1; qc (-2) 1; qc 3 1]) = [-2; 6]%Q /\
+  transform (ODer 3) [qc 1 1; qc (-2) 1; qc 3 1] g6 2 = Ok [f0] /\
+  peval [f0] (qc 1 20) = peval (pderivn 3 [qc 1 1; qc (-2) 1; qc 3 1]) (qc 1 20) /\
+  nth 1 (pderivn 1 [qc 1 1; qc (-2) 1; qc 3 1]) f0 = (faculty_ratio 2 1 * qc 3 1)%F.
+Proof.
+  assert (Hc : [qc 1 1; qc (-2) 1; qc 3 1] <> []) by discriminate.
+  split; [exact (C04_derivative_transform Qc QcOps Qc_laws 1 _ g6 2 Hc)|]. split; [vmr|].
+  split; [exact (C04_derivative_transform Qc QcOps Qc_laws 3 _ g6 2 Hc)|].
+  split; [exact (C04_derivative_value Qc QcOps Qc_laws 3 _ (qc 1 20) Hc)|].
+  exact (C04_derivative_coefficients Qc QcOps Qc_laws 1 _ 1).
+Qed.
+
+(* multiplication by x^2 on interval 2 (midpoint 7/4) *)
+Example NV_C04_position_transform :
+  transform (OPos 2) [qc 1 1; qc (-2) 1; qc 3 1] g6 2
+  = Ok (pmul [qc 1 1; qc (-2) 1; qc 3 1] (expand_power 2 (mid g6 2))) /\
+  map this (pmul [qc 1 1; qc (-2) 1; qc 3 1] (expand_power 2 (mid g6 2)))
+  = [49 # 16; -21 # 8; 51 # 16; 17 # 2; 3]%Q /\
+  peval (pmul [qc 1 1; qc (-2) 1; qc 3 1] (expand_power 2 (mid g6 2))) (qc 9 5 - mid g6 2)%F
+  = (fpow (qc 9 5) 2 * peval [qc 1 1; qc (-2) 1; qc 3 1] (qc 9 5 - mid g6 2))%F /\
+  peval (expand_power 2 (qc 7 4)) (qc 1 20) = fpow (qc 1 20 + qc 7 4)%F 2 /\
+  @binomial Qc QcOps 5 3 = (binomial 4 2 + binomial 4 3)%F /\ @binomial Qc QcOps 5 3 = qc 10 1.
+Proof.
+  split; [apply (C04_position_transform Qc QcOps 2 _ g6 2); vmr|]. split; [vmr|].
+  split; [apply (C04_position_value Qc QcOps Qc_laws)|].
+  split; [apply (C04_binomial_expansion Qc QcOps Qc_laws)|].
+  split; [exact (C04_binomial_pascal Qc QcOps Qc_laws 4 2) | qc].
+Qed.
+
+(* ====================================================================== *)
+(* C05                                                                     *)
+(* ====================================================================== *)
+
+(* (2 - se d^2/dx^2) - (-(x^2 * (1/4) + 1/3)): both scalar kinds, a reciprocal
+   integer, scalar +/- operator in both orders, unary minus *)
+Definition e5 : expr Qc :=
+  ESub (ESSub (ScI 2) (EMul (ESpl se) (EDer 2)))
+       (ENeg (EAddS (ESMulR (EPos 2) (ScRecI 4)) (ScF (qc 1 3)))).
+Definition c5 : list Qc := [qc 1 1; qc 2 1; qc (-1) 1; qc 1 2].
+(* order 2 on the points 2..5 (intervals 2, 3, 4); se is supported on interval 3 *)
+Definition sq : spline Qc :=
+  mkSpl (win 2 6) 2 [[qc 1 1; qc (-1) 1; qc 2 1]; [qc 0 1; qc 3 1; qc (-1) 2]; [qc 2 1; qc 1 1; qc 1 1]].
+Lemma sq_inv : SplInv sq. Proof. splinv. Qed.
+
+Lemma e5_factors : factors_ok e5 g6.
+Proof. split; [split; [split; [exact se_inv | reflexivity] | exact I] | exact I]. Qed.
+Lemma e5_scalars : scalars_ok e5.
+Proof.
+  split; [split; [exact I | split; exact I]|].
+  split; [exact I|]. split; [discriminate | exact I].
+Qed.
+
+Example NV_C05_expr_sound :
+  exists t, transform (elab e5) c5 g6 3 = Ok t /\ length t = 6%nat /\
+    map this t = [3499 # 192; -1169 # 96; 53 # 192; 475 # 384; 7 # 16; 1 # 8]%Q /\
+    (forall u, peval t u = peval (dsem e5 g6 3 c5) u) /\
+    (* the meaning, spelled out at u = 1/4, i.e. x = 3 (interval 3 has midpoint 11/4) *)
+    peval (dsem e5 g6 3 c5) (qc 1 4)
+    = ((qc 2 1 * peval c5 (qc 1 4)
+        - peval (piece se 3) (qc 1 4) * peval (pderiv (pderiv c5)) (qc 1 4))
+       + (qc 3 1 * qc 3 1 * qc 1 4 * peval c5 (qc 1 4) + qc 1 3 * peval c5 (qc 1 4)))%F.
+Proof.
+  destruct (C05_expr_sound Qc QcOps Qc_laws e5 c5 g6 3 g6_inv) as (t & Ht & Hl & Hd);
+    [vmr | exact e5_factors | exact e5_scalars | discriminate|].
+  exists t. split; [exact Ht|]. split; [exact Hl|].
+  assert (Hd' : forall u, peval t u = peval (dsem e5 g6 3 c5) u) by exact Hd.
+  subst_ok Ht. split; [vmr|]. split; [exact Hd' | qc].
+Qed.
+
+Example NV_C05_apply :
+  exists r, apply (elab e5) sq = Ok r /\ SplInv r /\ ssup r = ssup sq /\ sord r = 4%nat /\
+    nth 1 (coefsQ r) [] = [7; 779 # 64; 773 # 384; 1 # 16; -1 # 8]%Q /\
+    (forall k u, peval (piece r k) u = peval (dsem e5 g6 k (piece sq k)) u) /\
+    (* outside the window of sq the result denotes zero *)
+    (forall u, peval (dsem e5 g6 0 (piece sq 0)) u = f0).
+Proof.
+  destruct (C05_apply Qc QcOps Qc_laws e5 sq sq_inv e5_factors e5_scalars)
+    as (r & Hr & Hi & Hs & Ho & Hd).
+  exists r. split; [exact Hr|]. split; [exact Hi|]. split; [exact Hs|]. split; [exact Ho|].
+  assert (Hd' : forall k u, peval (piece r k) u = peval (dsem e5 g6 k (piece sq k)) u) by exact Hd.
+  subst_ok Hr. split; [vmr|]. split; [exact Hd'|].
+  intros u. change (piece sq 0) with (@nil Qc). apply (C05_zero_outside Qc QcOps Qc_laws).
+Qed.
+
+Example NV_C05_commutator_and_scalars :
+  peval (dsem (ESub (EMul (EDer 1) (EPos 1)) (EMul (EPos 1) (EDer 1))) g6 3 c5) (qc 1 4)
+  = peval c5 (qc 1 4) /\ peval c5 (qc 1 4) = qc 185 128 /\
+  cast (recip (@ScI Qc 4)) = (f1 / sval (@ScI Qc 4))%F /\ cast (recip (@ScI Qc 4)) = qc 1 4 /\
+  cast (recip (ScRecF (qc 2 3))) = qc 2 3.
+Proof.
+  split; [apply (C05_commutator Qc QcOps Qc_laws); discriminate|]. split; [qc|].
+  split; [apply (C05_reciprocal Qc QcOps (ScI 4)); [exact I | cbn [sval]; qcneq]|].
+  split; qc.
+Qed.
+
+(* a spline factor on another grid is refused *)
+Example NV_C05_factor_on_other_grid : apply (OSpl sh) sa = Throw DIFFERING_GRIDS.
+Proof.
+  apply (C05_factor_on_other_grid Qc QcOps Qc_laws sh sa sa_inv sh_inv); [exact h6_neq | nfact].
+Qed.
+
+(* ====================================================================== *)
+(* C06                                                                     *)
+(* ====================================================================== *)
+
+(* the form of the diffusion example: < d/dx . , -(1/2) sb d/dx . > *)
+Definition e61 : expr Qc := EDer 1.
+Definition e62 : expr Qc := EDivS (EMul (ESpl sb) (EDer 1)) (ScI (-2)).
+
+Lemma e61_factors : factors_ok e61 g6. Proof. exact I. Qed.
+Lemma e61_scalars : scalars_ok e61. Proof. exact I. Qed.
+Lemma e62_factors : factors_ok e62 g6.
+Proof. split; [split; [exact sb_inv | reflexivity] | exact I]. Qed.
+Lemma e62_scalars : scalars_ok e62.
+Proof. split; [exact I|]. split; [cbn [sval]; qcneq | split; exact I]. Qed.
+
+(* sq (points 2..5) against sw (whole grid): three common intervals *)
+Example NV_C06_exact :
+  calc_inter (ssup sq) (ssup sw) = Ok (win 2 6) /\ interval_list (win 2 6) = [2; 3; 4]%N /\
+  bilinear (elab e61) (elab e62) sq sw
+  = Ok (fsum (fun k => defint (pmul (dsem e61 g6 k (piece sq k)) (dsem e62 g6 k (piece sw k)))
+                              (halfwidth g6 k)) (interval_list (win 2 6))) /\
+  bilinear (elab e61) (elab e62) sq sw = Ok (qc 3271 1536) /\
+  (exists v, bilinear (elab e61) (elab e62) sq sw = Ok v).
+Proof.
+  assert (Hu : calc_inter (ssup sq) (ssup sw) = Ok (win 2 6)) by vmr.
+  split; [exact Hu|]. split; [vmr|]. split; [|split; [okqc|]].
+  - exact (C06_exact Qc QcOps Qc_laws e61 e62 sq sw (win 2 6) sq_inv sw_inv eq_refl
+             e61_factors e62_factors e61_scalars e62_scalars Hu).
+  - exact (C06_total Qc QcOps Qc_laws e61 e62 sq sw sq_inv sw_inv eq_refl
+             e61_factors e62_factors e61_scalars e62_scalars).
+Qed.
+
+Example NV_C06_swap :
+  bilinear (elab e61) (elab e62) sq sw = bilinear (elab e62) (elab e61) sw sq /\
+  bilinear (elab e62) (elab e61) sw sq = Ok (qc 3271 1536).
+Proof.
+  split; [|okqc].
+  exact (C06_swap Qc QcOps Qc_laws e61 e62 sq sw sq_inv sw_inv eq_refl
+           e61_factors e62_factors e61_scalars e62_scalars).
+Qed.
+
+Example NV_C06_add_l :
+  exists r v1 v2 v, spl_add sa sq = Ok r /\
+    bilinear (elab e61) (elab e62) sa sw = Ok v1 /\ bilinear (elab e61) (elab e62) sq sw = Ok v2 /\
+    bilinear (elab e61) (elab e62) r sw = Ok v /\ v = (v1 + v2)%F /\
+    v1 = qc 1 288 /\ v2 = qc 3271 1536 /\ v = qc 9829 4608.
+Proof.
+  destruct (C03_add Qc QcOps Qc_laws sa sq sa_inv sq_inv eq_refl) as (u & r & _ & Hr & _).
+  destruct (C06_add_l Qc QcOps Qc_laws e61 e62 sa sq sw r sa_inv sq_inv sw_inv eq_refl eq_refl
+              e61_factors e62_factors e61_scalars e62_scalars Hr) as (v1 & v2 & v & H1 & H2 & H3 & H4).
+  exists r, v1, v2, v. split; [exact Hr|]. split; [exact H1|]. split; [exact H2|].
+  split; [exact H3|]. split; [exact H4|].
+  assert (E1 : bilinear (elab e61) (elab e62) sa sw = Ok (qc 1 288)) by okqc.
+  assert (E2 : bilinear (elab e61) (elab e62) sq sw = Ok (qc 3271 1536)) by okqc.
+  pose proof (ok_inj _ _ _ H1 E1) as ->. pose proof (ok_inj _ _ _ H2 E2) as ->.
+  split; [reflexivity|]. split; [reflexivity|]. rewrite H4. qc.
+Qed.
+
+Example NV_C06_scale_l :
+  exists v v', bilinear (elab e61) (elab e62) sq sw = Ok v /\
+    bilinear (elab e61) (elab e62) (spl_scale_l (qc 3 7) sq) sw = Ok v' /\
+    v' = (qc 3 7 * v)%F /\ v' = qc 3271 3584.
+Proof.
+  destruct (C06_scale_l Qc QcOps Qc_laws e61 e62 sq sw (qc 3 7) sq_inv sw_inv eq_refl
+              e61_factors e62_factors e61_scalars e62_scalars) as (v & v' & H1 & H2 & H3).
+  exists v, v'. split; [exact H1|]. split; [exact H2|]. split; [exact H3|].
+  assert (E : bilinear (elab e61) (elab e62) (spl_scale_l (qc 3 7) sq) sw = Ok (qc 3271 3584)) by okqc.
+  exact (ok_inj _ _ _ H2 E).
+Qed.
+
+(* the plain scalar product on the single common interval of sa and sb; windows
+   that touch (sa, sc: the intersection is the one-point window 1..1) or are
+   separated (sc, sd: the empty window) give zero; another grid is refused *)
+Example NV_C06_scalar_product :
+  bilinear OId OId sa sb
+  = Ok (fsum (fun k => defint (pmul (piece sa k) (piece sb k)) (halfwidth g6 k)) [2%N]) /\
+  bilinear OId OId sa sb = Ok (qc 71 144) /\
+  bilinear (elab e61) (elab e62) sa sc = Ok f0 /\ bilinear (elab e61) (elab e62) sc sd = Ok f0 /\
+  bilinear (elab e61) (elab e62) sa sh = Throw DIFFERING_GRIDS.
+Proof.
+  split; [|split; [okqc|split; [|split]]].
+  - exact (C06_scalar_product Qc QcOps Qc_laws sa sb (win 2 4) sa_inv sb_inv eq_refl ltac:(vmr)).
+  - apply (C06_no_common_interval Qc QcOps Qc_laws e61 e62 sa sc (win 1 2) sa_inv sc_inv eq_refl);
+      vmr.
+  - apply (C06_no_common_interval Qc QcOps Qc_laws e61 e62 sc sd (win 0 0) sc_inv sd_inv eq_refl);
+      vmr.
+  - apply (C06_differing Qc QcOps Qc_laws). intros H. symmetry in H. exact (h6_neq H).
+Qed.
+
+(* the interval kernel: int_{-1/2}^{1/2} (1 + 2u + 3u^2) du = 5/4 *)
+Example NV_C06_kernel :
+  bi_kernel [qc 1 1; qc 2 1] [qc 1 1; qc 0 1; qc 3 1; qc 0 1] (qc 1 2)
+  = Ok (defint (pmul [qc 1 1; qc 2 1] [qc 1 1; qc 0 1; qc 3 1; qc 0 1]) (qc 1 2)) /\
+  (exists P, pderiv P = [qc 1 1; qc 2 1; qc 3 1] /\
+             defint [qc 1 1; qc 2 1; qc 3 1] (qc 1 2) = (peval P (qc 1 2) - peval P (- qc 1 2))%F) /\
+  defint [qc 1 1; qc 2 1; qc 3 1] (qc 1 2) = qc 5 4.
+Proof.
+  split; [apply (C06_kernel Qc QcOps Qc_laws); discriminate|].
+  split; [apply (C06_defint_is_integral Qc QcOps Qc_laws) | qc].
+Qed.
+
+(* ====================================================================== *)
+(* C07                                                                     *)
+(* ====================================================================== *)
+
+Example NV_C07_exact :
+  linear (elab e4) sa
+  = Ok (fsum (fun k => defint (dsem e4 g6 k (piece sa k)) (halfwidth g6 k)) (interval_list (ssup sa))) /\
+  interval_list (ssup sa) = [1; 2]%N /\ linear (elab e4) sa = Ok (qc 205 288) /\
+  (* the integral of sw over the whole grid, interval by interval *)
+  linear (elab EId) sw = Ok (qc 5 12) /\
+  map (fun k => this (defint (piece sw k) (halfwidth g6 k))) [0; 1; 2; 3; 4]%N
+  = [1 # 2; 2; 1 # 6; -3; 3 # 4]%Q /\
+  linear (elab e4) sz = Ok f0.
+Proof.
+  split; [exact (C07_exact Qc QcOps Qc_laws e4 sa sa_inv e4_factors e4_scalars)|].
+  split; [vmr|]. split; [okqc|]. split; [okqc|]. split; [vmr|].
+  apply (C07_no_interval Qc QcOps e4 sz sz_inv). vmr.
+Qed.
+
+Example NV_C07_add_scale :
+  (exists r v1 v2 v, spl_add sa sq = Ok r /\ linear (elab (EPos 1)) sa = Ok v1 /\
+     linear (elab (EPos 1)) sq = Ok v2 /\ linear (elab (EPos 1)) r = Ok v /\ v = (v1 + v2)%F /\
+     v1 = qc 1745 1152 /\ v2 = qc 11969 768 /\ v = qc 39397 2304) /\
+  (exists v v', linear (elab e4) sa = Ok v /\ linear (elab e4) (spl_scale_l (qc 3 7) sa) = Ok v' /\
+     v' = (qc 3 7 * v)%F /\ v = qc 205 288).
+Proof.
+  split.
+  - destruct (C03_add Qc QcOps Qc_laws sa sq sa_inv sq_inv eq_refl) as (u & r & _ & Hr & _).
+    destruct (C07_add Qc QcOps Qc_laws (EPos 1) sa sq r sa_inv sq_inv eq_refl I I Hr)
+      as (v1 & v2 & v & H1 & H2 & H3 & H4).
+    exists r, v1, v2, v. split; [exact Hr|]. split; [exact H1|]. split; [exact H2|].
+    split; [exact H3|]. split; [exact H4|].
+    assert (E1 : linear (elab (EPos 1)) sa = Ok (qc 1745 1152)) by okqc.
+    assert (E2 : linear (elab (EPos 1)) sq = Ok (qc 11969 768)) by okqc.
+    pose proof (ok_inj _ _ _ H1 E1) as ->. pose proof (ok_inj _ _ _ H2 E2) as ->.
+    split; [reflexivity|]. split; [reflexivity|]. rewrite H4. qc.
+  - destruct (C07_scale Qc QcOps Qc_laws e4 sa (qc 3 7) sa_inv e4_factors e4_scalars)
+      as (v & v' & H1 & H2 & H3).
+    exists v, v'. split; [exact H1|]. split; [exact H2|]. split; [exact H3|].
+    assert (E : linear (elab e4) sa = Ok (qc 205 288)) by okqc.
+    exact (ok_inj _ _ _ H1 E).
+Qed.
+
+Example NV_C07_bilinear_is_linear_of_product :
+  exists ra rb p v, apply (elab e61) sq = Ok ra /\ apply (elab e62) sw = Ok rb /\
+    spl_mul ra rb = Ok p /\ bilinear (elab e61) (elab e62) sq sw = Ok v /\ linear OId p = Ok v /\
+    v = qc 3271 1536 /\ ssup p = win 2 6 /\ sord p = 2%nat.
+Proof.
+  destruct (C07_bilinear_is_linear_of_product Qc QcOps Qc_laws e61 e62 sq sw sq_inv sw_inv eq_refl
+              e61_factors e62_factors e61_scalars e62_scalars)
+    as (ra & rb & p & v & H1 & H2 & H3 & H4 & H5).
+  exists ra, rb, p, v. split; [exact H1|]. split; [exact H2|]. split; [exact H3|].
+  split; [exact H4|]. split; [exact H5|].
+  assert (E : bilinear (elab e61) (elab e62) sq sw = Ok (qc 3271 1536)) by okqc.
+  split; [exact (ok_inj _ _ _ H4 E)|].
+  subst_ok H1. subst_ok H2. subst_ok H3. split; vmr.
+Qed.
+
+Example NV_C07_kernel :
+  lin_kernel [qc 1 1; qc 2 1; qc 3 1] (qc 1 2) = Ok (defint [qc 1 1; qc 2 1; qc 3 1] (qc 1 2)) /\
+  lin_kernel [qc 1 1; qc 2 1; qc 3 1] (qc 1 2) = Ok (qc 5 4).
+Proof. split; [apply (C07_kernel Qc QcOps Qc_laws); discriminate | okqc]. Qed.
+
+(* ====================================================================== *)
+(* C08                                                                     *)
+(* ====================================================================== *)
+
+Lemma sh_grid_neq (s : spline Qc) : sgridp s = g6 -> sgridp s <> sgridp sh.
+Proof. intros -> H. symmetry in H. exact (h6_neq H). Qed.
+
+(* sh lives on the grid h6, which differs from g6 in its last point only *)
+Example NV_C08_functions :
+  spl_add sb sh = Throw DIFFERING_GRIDS /\ spl_sub sb sh = Throw DIFFERING_GRIDS /\
+  spl_mul sb sh = Throw DIFFERING_GRIDS /\ spl_iadd sb sh = Throw DIFFERING_GRIDS /\
+  lin_comb [qc 1 1; qc 2 1; qc 3 1] [sb; sh; se] = Throw DIFFERING_GRIDS /\
+  bilinear (elab e61) (elab e62) sb sh = Throw DIFFERING_GRIDS /\
+  integrate (fun _ f a b => ((b - a) * f a)%F) 2 (fun x => x) sb sh = Throw DIFFERING_GRIDS /\
+  apply (OSpl sh) sb = Throw DIFFERING_GRIDS /\
+  calc_union (ssup sb) (ssup sh) = Throw DIFFERING_GRIDS /\
+  calc_inter (ssup sb) (ssup sh) = Throw DIFFERING_GRIDS /\
+  gen_ctor2 nv_ks h6 = Throw INCONSISTENT_DATA.
+Proof.
+  pose proof (sh_grid_neq sb eq_refl) as Hn.
+  split; [exact (C08_add Qc QcOps Qc_laws sb sh Hn)|].
+  split; [exact (C08_sub Qc QcOps Qc_laws sb sh Hn)|].
+  split; [exact (C08_mul Qc QcOps Qc_laws sb sh Hn)|].
+  split; [apply (C08_iadd Qc QcOps Qc_laws sb sh); [vm_compute; lia | exact Hn]|].
+  split; [apply (C08_lin_comb Qc QcOps Qc_laws [qc 1 1; qc 2 1; qc 3 1] sb [sh; se] eq_refl);
+          exists sh; split; [right; left; reflexivity | exact h6_neq]|].
+  split; [exact (C08_bilinear Qc QcOps Qc_laws _ _ sb sh Hn)|].
+  split; [exact (C08_integrate Qc QcOps Qc_laws _ 2 _ sb sh Hn)|].
+  split; [apply (C08_spline_factor Qc QcOps Qc_laws sh sb sb_inv sh_inv); [exact h6_neq | nfact]|].
+  split; [exact (C08_union Qc QcOps Qc_laws (ssup sb) (ssup sh) Hn)|].
+  split; [exact (C08_intersection Qc QcOps Qc_laws (ssup sb) (ssup sh) Hn)|].
+  apply (C08_generator Qc QcOps Qc_laws nv_ks h6 nv_ks_nondecreasing nv_ks_two_distinct nv_ks_len).
+  rewrite nv_ks_grid. exact h6_neq.
+Qed.
+
+(* the same at the level of the pool: two grids, a window and a spline on each;
+   the refused calls leave the state as it was *)
+Definition st8 : state Qc :=
+  fst (run gauss_solve []
+         [GridNew 0 g6; GridNew 1 h6; SupNew 2 0 2 6; SupNew 3 1 2 5;
+          SplNew 4 1 2 (scoefs sb); SplNew 5 1 3 (scoefs sh)]).
+
+Example NV_C08_steps :
+  lookup st8 4 = Some (VSpl sb) /\ lookup st8 5 = Some (VSpl sh) /\
+  step gauss_solve st8 (SplAdd 9 4 5) = (st8, Throw DIFFERING_GRIDS) /\
+  step gauss_solve st8 (SplMul 9 4 5) = (st8, Throw DIFFERING_GRIDS) /\
+  step gauss_solve st8 (SplISub 4 5) = (st8, Throw DIFFERING_GRIDS) /\
+  step gauss_solve st8 (SupUnion 9 2 3) = (st8, Throw DIFFERING_GRIDS) /\
+  step gauss_solve st8 (Bilin (PDer 1) (PSpl 4) 4 5) = (st8, Throw DIFFERING_GRIDS) /\
+  step gauss_solve st8 (Gen2 10 2 nv_ks 1) = (st8, Throw INCONSISTENT_DATA) /\
+  (* equal grids: the same call succeeds *)
+  snd (step gauss_solve st8 (SplAdd 9 4 4)) = Ok [TT Tvoid].
+Proof.
+  assert (H4 : lookup st8 4 = Some (VSpl sb)) by vmr.
+  assert (H5 : lookup st8 5 = Some (VSpl sh)) by vmr.
+  pose proof (sh_grid_neq sb eq_refl) as Hn.
+  split; [exact H4|]. split; [exact H5|].
+  split; [exact (C08_step_add Qc QcOps Qc_laws gauss_solve st8 9 4 5 sb sh H4 H5 Hn)|].
+  split; [exact (C08_step_mul Qc QcOps Qc_laws gauss_solve st8 9 4 5 sb sh H4 H5 Hn)|].
+  split; [apply (C08_step_isub Qc QcOps Qc_laws gauss_solve st8 4 5 sb sh H4 H5);
+          [vm_compute; lia | exact Hn]|].
+  split; [apply (C08_step_union Qc QcOps Qc_laws gauss_solve st8 9 2 3 (ssup sb) (ssup sh));
+          [vmr | vmr | exact Hn]|].
+  split; [apply (C08_step_bilin Qc QcOps Qc_laws gauss_solve st8 (PDer 1) (PSpl 4) 4 5 sb sh);
+          [split; [exact I | reflexivity] | split; [exists sb; exact H4 | reflexivity]
+          | exact H4 | exact H5 | exact Hn]|].
+  split; [apply (C08_step_gen2 Qc QcOps Qc_laws gauss_solve st8 10 2 nv_ks 1 h6);
+          [vmr | exact nv_ks_nondecreasing | exact nv_ks_two_distinct | exact nv_ks_len
+          | rewrite nv_ks_grid; exact h6_neq]|].
+  vmr.
+Qed.
